@@ -1,4 +1,5 @@
 """C03 — play is a deterministic function of program, seed and host calls (no unordered iteration, no ambient entropy)."""
+from analysis.cfg import cfg
 from analysis.facts import callee, callee_short, short, tyname
 from analysis.hashorder import classify
 from analysis.defuse import Tracer, fields_of
@@ -241,6 +242,54 @@ def run(chk, prog):
                            'clock read only when async_continue_active is true',
                            'the wall clock is read on a path where async_continue_active is not known to be true: '
                            'a blocking continue would depend on time', ci.loc(bb))
+
+    # the clock decides only WHERE a time-limited continue pauses, never what the story does
+    if ci is not None:
+        from analysis.effects import Effects as _Eff
+        from analysis.wbf import CACHE_FIELDS as _CF
+        eff_ = _Eff(prog, cache_fields=_CF, tracer=tr)
+        g_ = cfg(ci)
+        timed = []
+        for bb, t in ci.terms():
+            if t['k'] == 'switch' and t['d'].get('k') in ('copy', 'move'):
+                at = tr.prov(ci, t['d'])
+                if any('Instant::elapsed' in a or 'Duration::as_millis' in a or 'Duration::as_secs' in a for a in at):
+                    timed.append((bb, t))
+        if chk.anchor(R2, 'branch on the elapsed time in continue_internal', timed):
+            for i, (bb, t) in enumerate(timed):
+                succs = [tb for _, tb in t['ts']] + [t['else']]
+                loops = {x: bb in g_.reachable([x]) for x in succs}
+                reach = {x: g_.reachable([x], avoid=[bb]) for x in succs}
+                bad = []
+                for x in succs:
+                    if loops[x]:
+                        continue        # this side stays in the loop (time is not up): it goes on as it would anyway
+                    others = set().union(*[reach[y] for y in succs if y != x]) if len(succs) > 1 else set()
+                    only = reach[x] - others
+                    for e in eff_.events(ci):
+                        if e['bb'] not in only:
+                            continue
+                        if e['kind'] == 'repo-call':
+                            h = prog.fns.get(e['callee'])
+                            w = (eff_.summaries()[h.p][0] - _CF) if h is not None else set()
+                            if w:
+                                bad.append((ci.loc(e['bb']), 'call ' + h.short))
+                        elif set(e['fields']) - _CF:
+                            bad.append((ci.loc(e['bb']), e['what']))
+                    # locals that later decide the flow (e.g. the "line ended" flag) must not be set there either
+                    for b2 in only:
+                        for si, st in enumerate(ci.blocks[b2]['st']):
+                            if st['k'] == 'assign' and 'p' not in st['pl'] and ci.local_ty(st['pl']['l']) == 'bool' \
+                                    and st['rv']['k'] == 'use' and st['rv']['op'].get('k') == 'const':
+                                from analysis.defuse import du as _du
+                                if len(_du(ci).defs.get(st['pl']['l'], [])) > 1:
+                                    bad.append((ci.loc(b2, si), 'assignment to a flag read after the loop'))
+                chk.decide(R2, chk.key(R2, 'continue_internal', 'elapsed-time-only-pauses', '#%d' % i), not bad,
+                           'the side of the test taken only when time has run out changes nothing',
+                           'what the story does now depends on the wall clock: on the out-of-time side of the elapsed-time '
+                           'test continue_internal performs %s, which the in-time side does not: text, tags or line '
+                           'boundaries differ with the speed of the machine' % '; '.join(x[1] for x in bad[:3]),
+                           bad[0][0] if bad else ci.loc(bb))
 
     # ---- seeding provenance
     ALLOWED_SEED = ('field:StoryState::story_seed', 'field:StoryState::previous_random')
